@@ -432,6 +432,20 @@ def ladder(k: int, stem_len: int = 1, gap: int = 0) -> Tuple[str, tuple]:
     return (seq_for(n, k), tuple(sorted(pairs)))
 
 
+def kissing_chain(k: int, lens=None) -> Tuple[str, tuple]:
+    """k helices in a row, each crossing only its neighbours (a1 a2 b1 a3 b2 ... ak b(k-1) bk): ONE group of k crossing
+    stems whose conflict graph is a path - two levels suffice, the enumeration over stem orders has k! members"""
+    order = ["a0", "a1", "b0"]
+    for i in range(2, k):
+        order += [f"a{i}", f"b{i - 1}"]
+    order.append(f"b{k - 1}")
+    if k == 1:
+        order = ["a0", "b0"]
+    pos = {e: i for i, e in enumerate(order)}
+    chords = [(pos[f"a{i}"], pos[f"b{i}"]) for i in range(k)]
+    return chord_structure(chords, True, lens)
+
+
 def star(k: int, stem_len: int = 1) -> Tuple[str, tuple]:
     """one long-range stem crossing k nested, bulge-separated stems: two levels suffice, but one stem has k crossing
     neighbours (the bound 'largest number of crossing neighbours + 1' exceeds the 30 bracket kinds from k = 30 on)"""
